@@ -214,7 +214,7 @@ func runC03(c *Ctx) {
 			case "(*bufio.Reader).ReadString", "(*bufio.Reader).ReadBytes":
 				if k, ok := constInt(cc.Args[1]); ok && k == '\n' {
 					// reader must derive from the connection's buffered I/O
-					good = c.derivesFromField(cc.Args[0], a.IO)
+					good = c.derivesFromIO(cc.Args[0])
 				}
 			}
 			if good {
